@@ -119,43 +119,132 @@ Proof.
   rewrite id_insert_in', IH. intuition congruence.
 Qed.
 
-(** * groups: [tm_glob] and [tm_child] *)
-Inductive grp_change (sf sd : svc_info) (b : ibtp) (terr : bool) (t t' : txm) (ch : change) : Prop :=
-| GcNone :
-    tm_glob t' = tm_glob t -> tm_child t' = tm_child t ->
-    (is_request b = false -> tm_rec t (b_id b) <> None) ->
-    (is_request b = true -> tm_rec t' (b_id b) <> None) ->
-    c_child ch = [] ->
-    grp_change sf sd b terr t t' ch
-| GcNew g gi' :
-    (sv_hub sf =? sv_hub sd) = true ->
-    is_request b = true -> group_gid b = Some g -> tm_glob t g = None ->
-    tm_glob t' = upd gid_eqb (tm_glob t) g (Some gi') ->
-    tm_child t' = upd txid_eqb (tm_child t) (b_id b) (Some g) ->
-    g_children gi' = [(b_id b, if terr then ST_BEGIN_FAILURE else ST_BEGIN)] ->
-    g_state gi' = (if terr then ST_BEGIN_FAILURE else ST_BEGIN) ->
-    g_count gi' = snd g ->
-    grp_change sf sd b terr t t' ch
-| GcJoin g gi gi' :
-    (sv_hub sf =? sv_hub sd) = true ->
-    is_request b = true -> group_gid b = Some g -> tm_glob t g = Some gi ->
-    child_lookup (b_id b) (g_children gi) = None ->
-    tm_glob t' = upd gid_eqb (tm_glob t) g (Some gi') ->
-    tm_child t' = upd txid_eqb (tm_child t) (b_id b) (Some g) ->
-    map fst (g_children gi') = map fst (g_children gi) ++ [b_id b] ->
-    g_count gi' = g_count gi -> g_height gi' = g_height gi ->
-    grp_change sf sd b terr t t' ch
-| GcReport g gi gi' rm :
-    is_request b = false -> tm_rec t (b_id b) = None -> tm_child t (b_id b) = Some g ->
-    tm_glob t g = Some gi -> child_lookup (b_id b) (g_children gi) <> None ->
-    change_multi gi (b_id b) (b_typ b) = Some (gi', rm) ->
-    tm_glob t' = upd gid_eqb (tm_glob t) g (Some gi') ->
-    tm_child t' = tm_child t ->
-    (forall sorted', tm_report cfg_fixed sorted' t (b_id b) (b_typ b) <> None ->
-                     True) ->
-    c_prev ch = Some (g_state gi) -> c_cur ch = g_state gi' ->
-    (forall k, In k (c_child ch) <-> In k (map fst (g_children gi'))) ->
-    grp_change sf sd b terr t t' ch.
+(** * groups: exact effect of [BeginMultiTXs] *)
+Definition mk_txm (r : txid -> option (N * N)) (g : gid -> option ginfo) (c : txid -> option gid)
+           (l : N -> option (list tok)) : txm := Build_txm r g c l.
+
+Inductive bm_change (sorted : list txid -> list txid) (cur : N) (g : gid) (i : txid) (T : N) (failed : bool) (count : N)
+          (t : txm) : txm -> change -> Prop :=
+| BmNew :
+    tm_glob t g = None ->
+    let hh := timeout_height cur T in
+    let st := if failed then ST_BEGIN_FAILURE else ST_BEGIN in
+    let t1 := if failed then t else tm_add_timeout cfg_fixed t hh (TGid g) in
+    bm_change sorted cur g i T failed count t
+              (set_child (set_glob t1 g (Build_ginfo st hh [(i, st)] count)) i g)
+              (Build_change None st [] [] [i] false)
+| BmJoinLate gi :
+    tm_glob t g = Some gi -> child_lookup i (g_children gi) = None ->
+    g_state gi <> ST_BEGIN -> is_final (g_state gi) = false ->
+    let kids := child_set i (g_state gi) (g_children gi) in
+    bm_change sorted cur g i T failed count t
+              (set_child (set_glob t g (Build_ginfo (g_state gi) (g_height gi) kids (g_count gi))) i g)
+              (Build_change None (g_state gi) [] [] (sorted (map fst kids)) false)
+| BmJoinFail gi t1 :
+    tm_glob t g = Some gi -> child_lookup i (g_children gi) = None ->
+    g_state gi = ST_BEGIN -> failed = true ->
+    tm_remove_timeout t (g_height gi) (TGid g) = Some t1 ->
+    let kids := child_set i ST_BEGIN_FAILURE (children_all ST_BEGIN_FAILURE (g_children gi)) in
+    bm_change sorted cur g i T failed count t
+              (set_child (set_glob t1 g (Build_ginfo ST_BEGIN_FAILURE (g_height gi) kids (g_count gi))) i g)
+              (Build_change None ST_BEGIN_FAILURE (sorted (map fst (g_children gi)))
+                            (sorted (map fst (filter (fun p => snd p =? ST_SUCCESS) (g_children gi))))
+                            (sorted (map fst kids)) false)
+| BmJoinOk gi :
+    tm_glob t g = Some gi -> child_lookup i (g_children gi) = None ->
+    g_state gi = ST_BEGIN -> failed = false ->
+    let kids := child_set i ST_BEGIN (g_children gi) in
+    bm_change sorted cur g i T failed count t
+              (set_child (set_glob t g (Build_ginfo (g_state gi) (g_height gi) kids (g_count gi))) i g)
+              (Build_change None ST_BEGIN [] [] (sorted (map fst kids)) false).
+
+Lemma tm_begin_multi_inv sorted t cur g i T failed count t' ch :
+  tm_begin_multi cfg_fixed sorted t cur g i T failed count = Some (TmOk t' ch) ->
+  bm_change sorted cur g i T failed count t t' ch.
+Proof.
+  unfold tm_begin_multi. destruct (tm_glob t g) as [gi|] eqn:Egl.
+  - destruct (child_lookup i (g_children gi)) eqn:Ecl; [discriminate|].
+    destruct (g_state gi =? ST_BEGIN) eqn:Est; cbn [negb].
+    + apply N.eqb_eq in Est. destruct failed.
+      * destruct (tm_remove_timeout t (g_height gi) (TGid g)) as [t1|] eqn:E; [|discriminate].
+        intro H. inversion H; subst. eapply BmJoinFail; eauto.
+      * intro H. inversion H; subst. rewrite Est. 
+        pose proof (BmJoinOk sorted cur g i T false count t gi Egl Ecl Est eq_refl) as X.
+        cbv zeta in X. rewrite Est in X. exact X.
+    + apply N.eqb_neq in Est. cbn [d_late_child cfg_fixed negb]. rewrite andb_true_r.
+      destruct (is_final (g_state gi)) eqn:Ef; [discriminate|].
+      intro H. inversion H; subst. apply BmJoinLate; assumption.
+  - intro H. inversion H; subst. apply BmNew. exact Egl.
+Qed.
+
+(** * groups: exact effect of [Report] on a child *)
+Inductive cm_change (gi : ginfo) (i : txid) (r : N) : ginfo -> bool -> Prop :=
+| CmFail :
+    g_state gi = ST_BEGIN -> r = 2 ->
+    cm_change gi i r (Build_ginfo ST_BEGIN_FAILURE (g_height gi)
+                                  (child_set i ST_FAILURE (children_all ST_BEGIN_FAILURE (g_children gi))) (g_count gi)) true
+| CmStep st st' :
+    (g_state gi =? ST_BEGIN) && (r =? 2) = false ->
+    child_lookup i (g_children gi) = Some st -> set_fsm st (event_of_receipt r) = Some st' ->
+    multi_finished st' (child_set i st' (g_children gi)) (g_count gi) = false ->
+    cm_change gi i r (Build_ginfo (g_state gi) (g_height gi) (child_set i st' (g_children gi)) (g_count gi)) false
+| CmFinish st st' gs' :
+    (g_state gi =? ST_BEGIN) && (r =? 2) = false ->
+    child_lookup i (g_children gi) = Some st -> set_fsm st (event_of_receipt r) = Some st' ->
+    multi_finished st' (child_set i st' (g_children gi)) (g_count gi) = true ->
+    set_fsm (g_state gi) (event_of_receipt r) = Some gs' ->
+    cm_change gi i r (Build_ginfo gs' (g_height gi) (child_set i st' (g_children gi)) (g_count gi)) true.
+
+Lemma change_multi_inv gi i r gi' rm :
+  change_multi gi i r = Some (gi', rm) -> cm_change gi i r gi' rm.
+Proof.
+  unfold change_multi. destruct ((g_state gi =? ST_BEGIN) && (r =? 2)) eqn:E.
+  - apply andb_true_iff in E. destruct E as [E1 E2]. apply N.eqb_eq in E1, E2.
+    intro H. inversion H; subst. apply CmFail; [exact E1 | reflexivity].
+  - destruct (child_lookup i (g_children gi)) as [st|] eqn:Ecl; [|discriminate].
+    destruct (set_fsm st (event_of_receipt r)) as [st'|] eqn:Ef; [|discriminate].
+    destruct (multi_finished _ _ _) eqn:Em.
+    + destruct (set_fsm (g_state gi) _) as [gs'|] eqn:Eg; [|discriminate].
+      intro H. inversion H; subst. eapply CmFinish; eauto.
+    + intro H. inversion H; subst. eapply CmStep; eauto.
+Qed.
+
+Inductive rp_change (sorted : list txid -> list txid) (i : txid) (r : N) (t : txm) : txm -> change -> Prop :=
+| RpSingle hh st st' :
+    tm_rec t i = Some (hh, st) -> set_fsm st (event_of_receipt r) = Some st' ->
+    rp_change sorted i r t (set_rec t i (hh, st')) (change_simple (Some st) st')
+| RpMulti g gi gi' rm t1 :
+    tm_rec t i = None -> tm_child t i = Some g -> tm_glob t g = Some gi ->
+    child_lookup i (g_children gi) <> None ->
+    cm_change gi i r gi' rm ->
+    (if rm then tm_remove_timeout t (g_height gi) (TGid g) else Some t) = Some t1 ->
+    let prev := g_state gi in
+    let cur := g_state gi' in
+    let others := filter (fun p => negb (txid_eqb (fst p) i)) (g_children gi') in
+    let tofail := (prev =? ST_BEGIN) && (cur =? ST_BEGIN_FAILURE) in
+    let seen := filter (fun p => negb (txid_eqb (fst p) i)) (g_children gi) in
+    let ndst := if tofail then map fst (filter (fun p => snd p =? ST_SUCCESS) seen) else [] in
+    rp_change sorted i r t (set_glob t1 g gi')
+              (Build_change (Some prev) cur (sorted (map fst others)) (sorted ndst)
+                            (sorted (map fst (g_children gi')))
+                            (tofail && negb (match others with [] => true | _ => false end))).
+
+Lemma tm_report_inv sorted t i r t' ch :
+  tm_report cfg_fixed sorted t i r = Some (TmOk t' ch) -> rp_change sorted i r t t' ch.
+Proof.
+  unfold tm_report. destruct (tm_rec t i) as [[hh st]|] eqn:Er.
+  - destruct (set_fsm st (event_of_receipt r)) as [st'|] eqn:Ef; [|discriminate].
+    intro H. inversion H; subst. eapply RpSingle; eauto.
+  - destruct (tm_child t i) as [g|] eqn:Ec; [|discriminate].
+    destruct (tm_glob t g) as [gi|] eqn:Eg; [|discriminate].
+    destruct (child_lookup i (g_children gi)) eqn:Ecl; [|discriminate].
+    destruct (change_multi gi i r) as [[gi' rm]|] eqn:Ecm; [|discriminate].
+    apply change_multi_inv in Ecm.
+    cbn [d_fail_ndst_lost cfg_fixed].
+    destruct (if rm then tm_remove_timeout t (g_height gi) (TGid g) else Some t) as [t1|] eqn:E1; [|discriminate].
+    intro H. inversion H; subst.
+    eapply (RpMulti sorted i r t g gi gi' rm t1 Er Ec Eg); [rewrite Ecl; discriminate | exact Ecm | exact E1].
+Qed.
 
 Lemma child_set_keys i s l :
   map fst (child_set i s l) = if match child_lookup i l with Some _ => true | None => false end
@@ -164,74 +253,6 @@ Proof.
   destruct (child_lookup i l) eqn:E.
   - apply child_set_keys_existing. apply child_lookup_in in E. apply (in_map fst) in E. exact E.
   - apply child_set_keys_new. apply child_lookup_none_notin. exact E.
-Qed.
-
-Lemma tm_step_grp w h b sf sd terr t t' ch :
-  tm_step cfg_fixed w h b sf sd terr t = Some (TmOk t' ch) -> grp_change sf sd b terr t t' ch.
-Proof.
-  unfold tm_step. destruct (is_request b) eqn:Erq.
-  - destruct (sv_hub sf =? sv_hub sd) eqn:Ehub; cbn [negb].
-    2:{ unfold tm_begin_interbxh. cbn [d_interbxh_zero_record cfg_fixed].
-      destruct (tm_rec t (b_id b)) as [[hh s0]|] eqn:Er.
-      * cbn [fst snd]. destruct (set_fsm s0 _) as [s'|]; [|discriminate].
-        intro H. inversion H; subst. apply GcNone; simpl; try reflexivity; try discriminate;
-          try (intro Hx; rewrite Erq in Hx; discriminate Hx);
-          try (intros _; unfold upd; rewrite txid_eqb_refl; discriminate).
-      * intro H. inversion H; subst. apply GcNone; simpl; try reflexivity; try discriminate;
-          try (intro Hx; rewrite Erq in Hx; discriminate Hx);
-          try (intros _; unfold upd; rewrite txid_eqb_refl; discriminate). }
-    + destruct (group_gid b) as [g|] eqn:Eg.
-      * unfold tm_begin_multi. destruct (tm_glob t g) as [gi|] eqn:Egl.
-        -- destruct (child_lookup (b_id b) (g_children gi)) eqn:Ecl; [discriminate|].
-           destruct (negb (g_state gi =? ST_BEGIN)).
-           ++ destruct (is_final (g_state gi) && _); [discriminate|]. intro H. inversion H; subst; clear H.
-              eapply (GcJoin _ _ _ _ _ _ _ g gi (Build_ginfo _ _ _ _) Ehub Erq Eg Egl Ecl); cbn [g_children g_count g_height];
-                try reflexivity.
-              rewrite child_set_keys, Ecl. reflexivity.
-           ++ destruct terr.
-              ** destruct (tm_remove_timeout t (g_height gi) (TGid g)) as [t1|] eqn:E; [|discriminate].
-                 apply tm_remove_timeout_fields in E. destruct E as [_ [E2 E3]].
-                 intro H. inversion H; subst; clear H.
-                 eapply (GcJoin _ _ _ _ _ _ _ g gi (Build_ginfo _ _ _ _) Ehub Erq Eg Egl Ecl); cbn [g_children g_count g_height];
-                   try reflexivity.
-                 --- simpl. rewrite E2. reflexivity.
-                 --- simpl. rewrite E3. reflexivity.
-                 --- rewrite child_set_keys, child_lookup_all, Ecl, children_all_keys. reflexivity.
-              ** intro H. inversion H; subst; clear H.
-                 eapply (GcJoin _ _ _ _ _ _ _ g gi (Build_ginfo _ _ _ _) Ehub Erq Eg Egl Ecl); cbn [g_children g_count g_height];
-                   try reflexivity.
-                 rewrite child_set_keys, Ecl. reflexivity.
-        -- intro H. inversion H; subst; clear H.
-           eapply (GcNew _ _ _ _ _ _ _ g (Build_ginfo _ _ _ _) Ehub Erq Eg Egl); cbn [g_children g_count g_height g_state];
-             try reflexivity.
-           ++ destruct terr; simpl; [reflexivity|].
-              destruct (tm_add_timeout_fields cfg_fixed t (timeout_height h (u64_of_Z (b_T b))) (TGid g)) as [_ [E _]].
-              rewrite E. reflexivity.
-           ++ destruct terr; simpl; [reflexivity|].
-              destruct (tm_add_timeout_fields cfg_fixed t (timeout_height h (u64_of_Z (b_T b))) (TGid g)) as [_ [_ E]].
-              rewrite E. reflexivity.
-      * unfold tm_begin. intro H. inversion H; subst. apply GcNone; simpl; try reflexivity; try discriminate;
-          try (intro Hx; rewrite Erq in Hx; discriminate Hx);
-          try (intros _; unfold upd; rewrite txid_eqb_refl; discriminate).
-  - unfold tm_report. destruct (tm_rec t (b_id b)) as [[hh s]|] eqn:Er.
-    + destruct (set_fsm s _) as [s'|]; [|discriminate].
-      intro H. inversion H; subst. apply GcNone; simpl; try reflexivity; try discriminate;
-          try (intro Hx; rewrite Erq in Hx; discriminate Hx).
-      intros _. rewrite Er. discriminate.
-    + destruct (tm_child t (b_id b)) as [g|] eqn:Ec; [|discriminate].
-      destruct (tm_glob t g) as [gi|] eqn:Eg; [|discriminate].
-      destruct (child_lookup (b_id b) (g_children gi)) eqn:Ecl; [|discriminate].
-      destruct (change_multi gi (b_id b) (b_typ b)) as [[gi' rm]|] eqn:Ecm; [|discriminate].
-      assert (Hcl : child_lookup (b_id b) (g_children gi) <> None) by (rewrite Ecl; discriminate).
-      destruct rm.
-      * destruct (tm_remove_timeout t (g_height gi) (TGid g)) as [t1|] eqn:E; [|discriminate].
-        apply tm_remove_timeout_fields in E. destruct E as [_ [E2 E3]].
-        intro H. inversion H; subst; clear H.
-        eapply (GcReport _ _ _ _ _ _ _ g gi gi' true Erq Er Ec Eg Hcl Ecm); simpl; try congruence; try reflexivity; auto.
-        intro k. apply id_sort_in'.
-      * intro H. inversion H; subst; clear H.
-        eapply (GcReport _ _ _ _ _ _ _ g gi gi' false Erq Er Ec Eg Hcl Ecm); simpl; try congruence; try reflexivity; auto.
-        intro k. apply id_sort_in'.
 Qed.
 
 (** [change_multi] keeps the key list, the declared count and the timeout height *)
@@ -253,4 +274,44 @@ Proof.
     + destruct (set_fsm (g_state gi) _); [|discriminate].
       intro H. inversion H; subst. simpl. rewrite Hk by (rewrite E; discriminate). auto.
     + intro H. inversion H; subst. simpl. rewrite Hk by (rewrite E; discriminate). auto.
+Qed.
+
+(** * the five ways [tm_step] can succeed under [cfg_fixed] *)
+Inductive ts_leaf (w : world) (h : N) (b : ibtp) (sf sd : svc_info) (terr : bool) (t : txm) : txm -> change -> Prop :=
+| TsInterNew :
+    is_request b = true -> (sv_hub sf =? sv_hub sd) = false -> tm_rec t (b_id b) = None ->
+    let T := if sv_hub sf =? 0 then 0 else u64_of_Z (b_T b) in
+    let st := if terr then ST_BEGIN_FAILURE else ST_BEGIN in
+    ts_leaf w h b sf sd terr t (set_rec t (b_id b) (timeout_height h T, st)) (change_simple None st)
+| TsInterNotice hh s s' :
+    is_request b = true -> (sv_hub sf =? sv_hub sd) = false -> tm_rec t (b_id b) = Some (hh, s) ->
+    set_fsm s (event_of_txstatus (b_xst b)) = Some s' ->
+    ts_leaf w h b sf sd terr t (set_rec t (b_id b) (hh, s')) (change_simple (Some s) s')
+| TsBegin :
+    is_request b = true -> (sv_hub sf =? sv_hub sd) = true -> group_gid b = None ->
+    let st := if terr then ST_BEGIN_FAILURE else ST_BEGIN in
+    ts_leaf w h b sf sd terr t (set_rec t (b_id b) (timeout_height h (u64_of_Z (b_T b)), st)) (change_simple None st)
+| TsMulti g t' ch :
+    is_request b = true -> (sv_hub sf =? sv_hub sd) = true -> group_gid b = Some g ->
+    bm_change (id_sort w) h g (b_id b) (u64_of_Z (b_T b)) terr (snd g) t t' ch ->
+    ts_leaf w h b sf sd terr t t' ch
+| TsReport t' ch :
+    is_request b = false ->
+    rp_change (id_sort w) (b_id b) (b_typ b) t t' ch ->
+    ts_leaf w h b sf sd terr t t' ch.
+
+Lemma tm_step_inv w h b sf sd terr t t' ch :
+  tm_step cfg_fixed w h b sf sd terr t = Some (TmOk t' ch) -> ts_leaf w h b sf sd terr t t' ch.
+Proof.
+  unfold tm_step. destruct (is_request b) eqn:Erq.
+  - destruct (sv_hub sf =? sv_hub sd) eqn:Ehub; cbn [negb].
+    + destruct (group_gid b) as [g|] eqn:Eg.
+      * intro H. apply tm_begin_multi_inv in H. eapply TsMulti; eauto.
+      * unfold tm_begin. intro H. inversion H; subst. apply TsBegin; assumption.
+    + unfold tm_begin_interbxh. cbn [d_interbxh_zero_record cfg_fixed].
+      destruct (tm_rec t (b_id b)) as [[hh s0]|] eqn:Er.
+      * cbn [fst snd]. destruct (set_fsm s0 _) as [s'|] eqn:Ef; [|discriminate].
+        intro H. inversion H; subst. eapply TsInterNotice; eauto.
+      * intro H. inversion H; subst. apply TsInterNew; assumption.
+  - intro H. apply tm_report_inv in H. apply TsReport; [exact Erq | exact H].
 Qed.
